@@ -448,6 +448,25 @@ def run(P, R, tier):
         R.check(ok, 'C10.c', F, c, 'compaction moves the i-th non-empty part to the i-th final name',
                 'compaction does not move (source i -> final name i): ' + detail)
 
+    # removal is confined to what this call created: a directory ABOVE the formatted temp directories (their dirname / parent) may be a scratch area shared with
+    # other running calls and other data
+    for h_ in [F] + list(F.nested.values()):
+        for c_ in calls_to(h_, rm_helpers) + [c for c in astq.own_calls(h_) if astq.fs_call(c) in ('rm', 'rmdir', 'rm_file', 'delete')]:
+            if not c_.args:
+                continue
+            srcs = astq.sources(h_, c_.args[0])
+            e_ = astq.expand(h_, c_.args[0])
+            ups = [x for x in ast.walk(e_) if (isinstance(x, ast.Call) and norm(x.func).split('.')[-1] in ('dirname', 'split', 'commonpath', 'commonprefix'))
+                   or (isinstance(x, ast.Attribute) and x.attr in ('parent', 'parents'))]
+            for nm in srcs:
+                for d_ in astq.assignments(h_, nm):
+                    v_ = d_[1].iter if isinstance(d_[1], (ast.For, ast.comprehension)) else d_[1]
+                    if isinstance(v_, ast.AST):
+                        ups += [x for x in ast.walk(v_) if (isinstance(x, ast.Call) and norm(x.func).split('.')[-1] in ('dirname', 'commonpath', 'commonprefix'))
+                                or (isinstance(x, ast.Attribute) and x.attr in ('parent', 'parents'))]
+            R.check(not ups, 'C10.a', h_, c_, 'only the directories this call formatted and created are removed',
+                    f'`{norm(c_)[:70]}` removes a directory obtained with `{norm(ups[0])[:50] if ups else ""}`: the level above the temp directories can be a scratch area shared with other '
+                    'running calls (and anything else stored there), which is deleted with it', construct=f'{h_.name}: removal above the created directories')
     # the temp directory template is the caller's (or the default under the dataset): the directories that are created from it are exactly the ones that are
     # removed.  A template that is extended on the way (a sub-directory appended) creates parents that nothing removes
     for st in walk_own(F.node):
